@@ -167,6 +167,24 @@ func (in *inst) Exec(t int, op vdrv.Op) string {
 			return "b1"
 		}
 		return "b0"
+	case "W":
+		vsched.WaitUntil(func() bool {
+			n := 0
+			for _, ti := range in.tasks {
+				n += len(ti.begins)
+			}
+			return n >= id
+		})
+		return "u"
+	case "A":
+		vsched.WaitUntil(func() bool { return len(vtime.Armed()) >= id })
+		return "u"
+	case "Z":
+		vsched.WaitUntil(func() bool { return int(in.p.VerifExpanded()) <= id })
+		return "u"
+	case "K":
+		vsched.WaitUntil(func() bool { ti := in.tasks[id]; return ti != nil && ti.task != nil })
+		return "u"
 	case "R", "r":
 		ti := in.info(id)
 		if ti.task == nil {
